@@ -12,6 +12,9 @@ type blockOpts struct {
 	min   int
 	max   int
 	pre   func() // run after the scope is pushed (declare parameters)
+	// breakAtEnd appends a conditional break (loops with an else block: the
+	// else block must not run after a break)
+	breakAtEnd bool
 }
 
 func (g *Gen) block(o blockOpts) *Lambda {
@@ -28,6 +31,20 @@ func (g *Gen) block(o blockOpts) *Lambda {
 	body := &Chunk{}
 	for i := 0; i < n; i++ {
 		body.Pipes = append(body.Pipes, g.statement()...)
+	}
+	if o.loop && g.pure == 0 && g.chance(30) {
+		// a function that raises break/continue on purpose ends or continues
+		// this loop (flow commands are not captured by functions)
+		if v := g.pickVar(func(v *gvar) bool { return v.t.K == tFn && v.t.Sig.MayFlow }); v != nil {
+			// (at the end: the function may have been defined inside this body)
+			body.Pipes = append(body.Pipes, stmt(g.callOf(v, 2)))
+			if g.silent == 0 && g.chance(50) {
+				body.Pipes = append(body.Pipes, g.sPut()...)
+			}
+		}
+	}
+	if o.breakAtEnd {
+		body.Pipes = append(body.Pipes, stmt(&If{Conds: []Expr{g.expr(tyBool, 2)}, Bodies: []*Lambda{{Rest: -1, Body: &Chunk{Pipes: []*Pipeline{stmt(call("break"))}}}}}))
 	}
 	g.depth--
 	g.pop()
@@ -160,7 +177,7 @@ func (g *Gen) statement() []*Pipeline {
 		{14, g.sVar}, {10, g.sSet}, {12, g.sPut}, {7, g.sIf}, {5, g.sWhile}, {6, g.sFor},
 		{7, g.sTry}, {5, g.sFn}, {6, g.sCall}, {4, g.sLambdaVar}, {3, g.sBlockCall}, {4, g.sEach},
 		{6, g.sPipeline}, {3, g.sLogic}, {2, g.sDel}, {2, g.sFail}, {3, g.sFlow}, {3, g.sExcVar},
-		{2, g.sAdder}, {2, g.sKeys}, {2, g.sEcho}, {2, g.sProtected},
+		{2, g.sAdder}, {2, g.sKeys}, {2, g.sEcho}, {2, g.sProtected}, {2, g.sPipeFail}, {2, g.sReason},
 	}
 	if inFn {
 		choices = append(choices, choice{4, g.sTmp}, choice{4, g.sDefer})
@@ -260,11 +277,27 @@ func (g *Gen) sVar() []*Pipeline {
 		t := g.scalarType()
 		a, b := g.fresh("v"), g.fresh("v")
 		f := &VarForm{LHS: []*LV{{Name: a}, {Name: b}}, HasEq: true, RHS: []Expr{g.expr(t, 1), g.expr(t, 1)}}
-		if g.chance(30) {
-			f.LHS[1].Rest = true
-			f.RHS = []Expr{g.expr(t, 1), g.multi(t, 1)}
-			g.declare(a, t)
-			g.declare(b, listOf(t))
+		if g.chance(40) {
+			// a rest variable last, first or in the middle
+			switch g.r.Intn(3) {
+			case 0:
+				f.LHS[1].Rest = true
+				f.RHS = []Expr{g.expr(t, 1), g.multi(t, 1)}
+				g.declare(a, t)
+				g.declare(b, listOf(t))
+			case 1:
+				f.LHS[0].Rest = true
+				f.RHS = []Expr{g.multi(t, 1), g.expr(t, 1), g.expr(t, 1)}
+				g.declare(a, listOf(t))
+				g.declare(b, t)
+			default:
+				c := g.fresh("v")
+				f.LHS = []*LV{{Name: a}, {Name: b, Rest: true}, {Name: c}}
+				f.RHS = []Expr{g.expr(t, 1), g.multi(t, 1), g.expr(t, 1), g.expr(t, 1)}
+				g.declare(a, t)
+				g.declare(b, listOf(t))
+				g.declare(c, t)
+			}
 			return []*Pipeline{stmt(f)}
 		}
 		if g.chance(15) {
@@ -287,6 +320,30 @@ func (g *Gen) sVar() []*Pipeline {
 		return []*Pipeline{stmt(&VarForm{LHS: []*LV{{Name: name}}}), stmt(call(sink, &Var{Name: name})),
 			stmt(&SetForm{LHS: []*LV{{Name: name}}, RHS: []Expr{rhs}})}
 	}
+	if g.chance(8) {
+		// shadowing whose right-hand side uses the variable being shadowed
+		// (it must see the old variable), in the same or an inner scope
+		if v := g.pickVar(func(v *gvar) bool {
+			return !v.isFnVar && !v.counter && !v.loopVar && (v.t.K == tInt || v.t.K == tStr || v.t.K == tList)
+		}); v != nil {
+			var e Expr
+			nt := v.t
+			switch v.t.K {
+			case tInt:
+				e = capture(call("+", g.use(v), intLit(1+g.r.Intn(3))))
+			case tStr:
+				e = &Compound{Parts: []Expr{g.use(v), g.strAtom()}}
+			default:
+				e = &ListLit{Items: []Expr{g.use(v)}}
+				nt = listOf(v.t)
+			}
+			nv := g.declare(v.name, nt)
+			if nt.K == tList {
+				nv.known = 1
+			}
+			return []*Pipeline{stmt(&VarForm{LHS: []*LV{{Name: v.name}}, HasEq: true, RHS: []Expr{e}})}
+		}
+	}
 	t := g.randType(0)
 	e := g.expr(t, 0) // the right-hand side sees the old variables
 	name := g.newVarName(t)
@@ -306,23 +363,31 @@ func (g *Gen) sSet() []*Pipeline {
 		if v.known > 0 {
 			idx = g.r.Intn(v.known)
 		}
+		// when the index may be out of range the right-hand side is kept
+		// trivial (see the note on element lvalues in the interpreter)
+		rhs := func(t *gtype) Expr {
+			if v.known <= 0 || idx >= v.known {
+				return g.simpleExpr(t)
+			}
+			return g.expr(t, 1)
+		}
 		if g.chance(10) {
 			idx = 7
 		}
 		if v.t.Elem.K == tList && g.chance(40) {
-			return []*Pipeline{stmt(&SetForm{LHS: []*LV{{Name: v.name, Indices: []Expr{intLit(idx), intLit(0)}}}, RHS: []Expr{g.expr(v.t.Elem.Elem, 1)}})}
+			return []*Pipeline{stmt(&SetForm{LHS: []*LV{{Name: v.name, Indices: []Expr{intLit(idx), intLit(0)}}}, RHS: []Expr{g.simpleExpr(v.t.Elem.Elem)}})}
 		}
 		if v.t.Elem.K == tMap && g.chance(40) {
-			return []*Pipeline{stmt(&SetForm{LHS: []*LV{{Name: v.name, Indices: []Expr{intLit(idx), g.mapKey()}}}, RHS: []Expr{g.expr(v.t.Elem.Elem, 1)}})}
+			return []*Pipeline{stmt(&SetForm{LHS: []*LV{{Name: v.name, Indices: []Expr{intLit(idx), g.mapKey()}}}, RHS: []Expr{rhs(v.t.Elem.Elem)}})}
 		}
-		return []*Pipeline{stmt(&SetForm{LHS: []*LV{{Name: v.name, Indices: []Expr{intLit(idx)}}}, RHS: []Expr{g.expr(v.t.Elem, 1)}})}
+		return []*Pipeline{stmt(&SetForm{LHS: []*LV{{Name: v.name, Indices: []Expr{intLit(idx)}}}, RHS: []Expr{rhs(v.t.Elem)}})}
 	case v.t.K == tMap && g.chance(50):
 		k := g.mapKey()
 		if ks, ok := k.(*Str); ok {
 			v.keys = append(v.keys, ks.S)
 		}
 		if v.t.Elem.K == tList && g.chance(40) {
-			return []*Pipeline{stmt(&SetForm{LHS: []*LV{{Name: v.name, Indices: []Expr{k, intLit(0)}}}, RHS: []Expr{g.expr(v.t.Elem.Elem, 1)}})}
+			return []*Pipeline{stmt(&SetForm{LHS: []*LV{{Name: v.name, Indices: []Expr{k, intLit(0)}}}, RHS: []Expr{g.simpleExpr(v.t.Elem.Elem)}})}
 		}
 		return []*Pipeline{stmt(&SetForm{LHS: []*LV{{Name: v.name, Indices: []Expr{k}}}, RHS: []Expr{g.expr(v.t.Elem, 1)}})}
 	case g.chance(12):
@@ -337,6 +402,10 @@ func (g *Gen) sSet() []*Pipeline {
 		w := g.pickVar(func(w *gvar) bool { return w != v && w.name != v.name && g.assignable(w) && !w.loopVar && sameType(w.t, v.t.Elem) })
 		if w != nil {
 			v.known = -1
+			if g.chance(50) {
+				// rest variable first: the values after it go to the following lvalues
+				return []*Pipeline{stmt(&SetForm{LHS: []*LV{{Name: v.name, Rest: true}, {Name: w.name}}, RHS: []Expr{g.expr(v.t.Elem, 1), g.multi(v.t.Elem, 1), g.expr(v.t.Elem, 1)}})}
+			}
 			return []*Pipeline{stmt(&SetForm{LHS: []*LV{{Name: w.name}, {Name: v.name, Rest: true}}, RHS: []Expr{g.multi(v.t.Elem, 1), g.expr(v.t.Elem, 1)}})}
 		}
 	}
@@ -427,14 +496,15 @@ func (g *Gen) sWhile() []*Pipeline {
 		limit = 0
 	}
 	decl := stmt(&VarForm{LHS: []*LV{{Name: cn}}, HasEq: true, RHS: []Expr{intLit(0)}})
+	withElse := g.chance(35)
 	g.loopNest++
-	body := g.block(blockOpts{loop: true, min: 1, max: 3})
+	body := g.block(blockOpts{loop: true, min: 1, max: 3, breakAtEnd: withElse && g.chance(60)})
 	g.loopNest--
 	// the counter is advanced first so that continue cannot loop forever
 	inc := stmt(&SetForm{LHS: []*LV{{Name: cn}}, RHS: []Expr{capture(call("+", &Var{Name: cn}, intLit(1)))}})
 	body.Body.Pipes = append([]*Pipeline{inc}, body.Body.Pipes...)
 	w := &While{Cond: capture(call("<", &Var{Name: cn}, intLit(limit))), Body: body}
-	if g.chance(35) {
+	if withElse {
 		w.Else = g.smallBlock()
 	}
 	return []*Pipeline{decl, stmt(w)}
@@ -462,11 +532,12 @@ func (g *Gen) sFor() []*Pipeline {
 		nv.loopVar = true
 		defer func() { nv.t = &gtype{K: tkind(-1)} }() // unusable afterwards
 	}
+	withElse := g.chance(35)
 	g.loopNest++
-	body := g.block(blockOpts{loop: true, min: 1, max: 3, pre: pre})
+	body := g.block(blockOpts{loop: true, min: 1, max: 3, pre: pre, breakAtEnd: withElse && g.chance(60)})
 	g.loopNest--
 	f := &For{Var: lv, Cont: cont, Body: body}
-	if g.chance(35) {
+	if withElse {
 		f.Else = g.smallBlock()
 	}
 	return []*Pipeline{stmt(f)}
@@ -560,6 +631,68 @@ func (g *Gen) sFail() []*Pipeline {
 	return []*Pipeline{stmt(g.riskyForm())}
 }
 
+// sPipeFail: a pipeline in which one or several commands raise before
+// producing any output: one exception is rethrown as is, several form a
+// composite exception.
+func (g *Gen) sPipeFail() []*Pipeline {
+	if g.silent > 0 {
+		return nil
+	}
+	pl := &Pipeline{}
+	n := 2 + g.r.Intn(2)
+	failing := 0
+	for i := 0; i < n; i++ {
+		switch g.r.Intn(4) {
+		case 0:
+			pl.Forms = append(pl.Forms, call("nop"))
+		case 1:
+			pl.Forms = append(pl.Forms, call("fail", g.strAtom()))
+			failing++
+		case 2:
+			pl.Forms = append(pl.Forms, call("+", g.strAtomLetters(), intLit(1)))
+			failing++
+		default:
+			pl.Forms = append(pl.Forms, call([]string{"break", "return", "continue"}[g.r.Intn(3)]))
+			failing++
+		}
+	}
+	name := g.fresh("x")
+	catch := &Lambda{Rest: -1, Body: &Chunk{Pipes: []*Pipeline{stmt(call("put", &Var{Name: name}))}}}
+	if failing >= 2 {
+		catch.Body.Pipes = append(catch.Body.Pipes, stmt(call("put", &Index{X: &Var{Name: name}, Indices: [][]Expr{{&Str{S: "reason"}}, {&Str{S: "type"}}}})))
+	}
+	return []*Pipeline{stmt(&Try{Body: &Lambda{Rest: -1, Body: &Chunk{Pipes: []*Pipeline{pl}}}, CatchVar: &LV{Name: name}, Catch: catch})}
+}
+
+// sReason inspects the documented fields of the reason of fail and flow
+// exceptions.
+func (g *Gen) sReason() []*Pipeline {
+	if g.silent > 0 {
+		return nil
+	}
+	name := g.fresh("x")
+	idx := func(fields ...string) Expr {
+		ix := &Index{X: &Var{Name: name}, Indices: [][]Expr{{&Str{S: "reason"}}}}
+		var fs []Expr
+		for _, f := range fields {
+			fs = append(fs, &Str{S: f})
+		}
+		ix.Indices = append(ix.Indices, fs)
+		return ix
+	}
+	var body Form
+	var shown Expr
+	if g.chance(60) {
+		body = call("fail", g.simpleExpr(g.randType(1)))
+		shown = idx("type", "content")
+	} else {
+		body = call([]string{"break", "continue", "return"}[g.r.Intn(3)])
+		shown = idx("type", "name")
+	}
+	return []*Pipeline{stmt(&Try{Body: &Lambda{Rest: -1, Body: &Chunk{Pipes: []*Pipeline{stmt(body)}}}, CatchVar: &LV{Name: name},
+		Catch: &Lambda{Rest: -1, Body: &Chunk{Pipes: []*Pipeline{stmt(call("put", shown))}}}})}
+}
+
 func (g *Gen) sProtected() []*Pipeline {
 	if g.silent > 0 {
 		return nil
@@ -591,7 +724,7 @@ func (g *Gen) sFlow() []*Pipeline {
 
 func (g *Gen) sFn() []*Pipeline {
 	sig := g.randSig()
-	if g.chance(12) && sig.Out == nil {
+	if g.chance(20) && sig.Out == nil {
 		sig.MayFlow = true
 	}
 	name := g.fresh("f")
